@@ -298,8 +298,40 @@ def corpus():
            ["ws", "D"], J("D", "ob"), S,
            ["send", "A", {"type": "groupaction", "kind": "clearchat", "value": {"userId": "C"}}], S,
            ["ws", "E"], J("E", "ob"), S, S]
+    # the history never exceeds the configured age: group g keeps 4 s here; the monitor bounds every chat's age from the
+    # driver's clock (certainly expired / certainly alive / unknown) and demands the replay accordingly
+    st7 = [["ws", "A"], J("A", "op"), S, ["ws", "B"], J("B", "pr"), S,
+           CH("A", value="old-1", id="o1"), S, CH("B", value="old-2", id="o2"), S, ["sleep", 5200],
+           CH("A", value="young-1", id="y1"), S, ["ws", "D"], J("D", "ob"), S,
+           ["sleep", 5200], ["ws", "E"], J("E", "ob"), S,
+           CH("B", value="young-2", id="y2"), S, ["ws", "F"], J("F", "ob"), S, S]
+    out.append({"name": "history-age-limit", "fixture": fixture(0, 0, extra_g={"max-history-age": 4}), "expect": expect_table(0, 0),
+                "maxage": {"g": 4000}, "steps": st7})
     out.append({"name": "clearchat-with-colliding-ids", "fixture": fixture(0, 0), "expect": expect_table(0, 0), "steps": st6})
     return out
+
+
+def annotate(events, behs):
+    # the oracle table of each behaviour goes into its New event
+    bi = -1
+    for e in events:
+        if e["ev"] == "New":
+            bi += 1
+            e["expect"] = behs[bi].get("expect", {}) if bi < len(behs) else {}
+            e["pipelined"] = 1 if (bi < len(behs) and behs[bi].get("pipelined")) else 0
+            e["maxage"] = behs[bi].get("maxage", {}) if bi < len(behs) else {}
+    # C15 (history age): the server stamps a chat between the instant the driver sent it (tlo) and the next barrier
+    # (thi); a joiner's replay is computed between the instant its join was sent and the barrier that follows
+    nxt = 2000000000
+    for e in reversed(events):
+        if e["ev"] in ("New", "End"):
+            nxt = 2000000000
+        elif e["ev"] == "settled":
+            if not e.get("late"):      # a barrier with an unanswered ping bounds nothing
+                nxt = e.get("wt", 0)
+        elif e["ev"] == "sent" and isinstance(e.get("m"), dict):
+            e["m"]["tlo"] = e.get("wt", 0)
+            e["m"]["thi"] = nxt
 
 
 def run(rep, w, tier, pid, replay=None, extra_behs=None, corpus_only=None):
@@ -339,13 +371,7 @@ def run(rep, w, tier, pid, replay=None, extra_behs=None, corpus_only=None):
     if rc != 0:
         raise C.Inconclusive("srvdrive failed (exit %d): %s" % (rc, out[-2000:]))
     events = C.read_ndjson(trace)
-    # the oracle table of each behaviour goes into its New event
-    bi = -1
-    for e in events:
-        if e["ev"] == "New":
-            bi += 1
-            e["expect"] = behs[bi].get("expect", {}) if bi < len(behs) else {}
-            e["pipelined"] = 1 if (bi < len(behs) and behs[bi].get("pipelined")) else 0
+    annotate(events, behs)
     t2 = os.path.join(w, "trace_signalling.ndjson")
     with open(t2, "w") as f:
         for e in events:
